@@ -12,6 +12,7 @@ import (
 	"runtime/pprof"
 	"sort"
 	"strings"
+	"sync"
 	"time"
 
 	"verifh/verifrt"
@@ -41,16 +42,23 @@ type RunResult struct {
 	Violations []Violation    `json:"violations,omitempty"`
 	Sample     any            `json:"sample,omitempty"`
 	Extra      map[string]int `json:"extra,omitempty"`
+
+	// counters are also bumped from goroutines of the code under test (the
+	// simulated API server's RoundTrip runs on the agent's watch goroutines)
+	mu sync.Mutex
 }
 
 func NewResult(seed uint64, idx int) *RunResult {
 	return &RunResult{Seed: seed, Index: idx, Faults: map[string]int{}, Probes: map[string]int{}, Checks: map[string]int{}, Extra: map[string]int{}}
 }
 
-func (r *RunResult) Fault(kind string) { r.Faults[kind]++ }
-func (r *RunResult) Probe(name string) { r.Probes[name]++ }
-func (r *RunResult) Check(name string) { r.Checks[name]++ }
+func (r *RunResult) Fault(kind string)           { r.mu.Lock(); r.Faults[kind]++; r.mu.Unlock() }
+func (r *RunResult) Probe(name string)           { r.mu.Lock(); r.Probes[name]++; r.mu.Unlock() }
+func (r *RunResult) Check(name string)           { r.mu.Lock(); r.Checks[name]++; r.mu.Unlock() }
+func (r *RunResult) AddExtra(name string, n int) { r.mu.Lock(); r.Extra[name] += n; r.mu.Unlock() }
 func (r *RunResult) State(fp uint64) {
+	r.mu.Lock()
+	defer r.mu.Unlock()
 	if len(r.States) < 256 {
 		r.States = append(r.States, fp)
 	}
@@ -58,6 +66,8 @@ func (r *RunResult) State(fp uint64) {
 
 // Violate records a violation (at most 8 per run, distinct signatures).
 func (r *RunResult) Violate(prop, clause, sig string, step int, format string, a ...any) {
+	r.mu.Lock()
+	defer r.mu.Unlock()
 	for _, v := range r.Violations {
 		if v.Signature == sig {
 			return
